@@ -67,6 +67,14 @@ def run(ctx):
             if ctx.mine(i):
                 ctx.check(("join", name, PARAM_SETS[2], "datetime", dt), "join-typed", enum=True)
             i += 1
+    # long lines: a delimiter, escape or lone CR exactly at and around the fold boundaries must survive join -> fold -> unfold -> split
+    for vc in VCLASSES:
+        for n in list(range(45, 80)) + list(range(120, 153)):
+            for ch in ("\r", "\r\r", " ", "\t", "\\", ";", ":", ",", "\r ", '"'):
+                if ctx.mine(i):
+                    k = i // ctx.nshards
+                    ctx.check(("join", NAMES[k % len(NAMES)], PARAM_SETS[k % len(PARAM_SETS)], vc, "a" * n + ch + "b" * 25), "join-fold-boundary", enum=True)
+                i += 1
     ctx.exhaustive[f"join/split alphabet<= {L} x value classes"] = True
     for p in PAYLOADS:
         for pos in POSITIONS:
